@@ -8,5 +8,5 @@ INIT Init
 NEXT Next
 VIEW View
 INVARIANTS TypeOK
-PROPERTIES PathsAgree ReplyContract NeverEcsToClient OneToken
+PROPERTIES PathsAgree ReplyContract NeverEcsToClient OneToken NoClientOptionUpstream AtMostOneOpt
 CHECK_DEADLOCK FALSE
